@@ -12,15 +12,59 @@ namespace Kap.C04
 section
 variable {F : Type} (ctx : Ctx F)
 
-/-- the incremental state of the stateful builtins represents a history of their arguments. -/
+/-- the incremental state of one instance each of the stateful builtins represents a history of their arguments. -/
+def BaseRel (b : FnBase F) (h : HistBase F) : Prop :=
+  b.count = wrap h.counts ∧
+  b.spMin = h.spreads.foldl (fun m y => if ctx.ops.lt y m then y else m) ctx.ops.posInf ∧
+  b.spMax = h.spreads.foldl (fun m y => if ctx.ops.gt y m then y else m) ctx.ops.negInf ∧
+  (b.sN, b.sMean, b.sM2) = h.sigmas.foldl (welford ctx) (ctx.ops.ofInt 0, ctx.ops.ofInt 0, ctx.ops.ofInt 0)
+
+/-- the state an evaluation sees (the functions it was handed and those of the lambda nodes) represents the history of
+one group (of the expression's own functions and of those inside each nested lambda). -/
 def StateRel (st : FnState F) (h : Hist F) : Prop :=
   st.count = wrap h.counts ∧
   st.spMin = h.spreads.foldl (fun m y => if ctx.ops.lt y m then y else m) ctx.ops.posInf ∧
   st.spMax = h.spreads.foldl (fun m y => if ctx.ops.gt y m then y else m) ctx.ops.negInf ∧
-  (st.sN, st.sMean, st.sM2) = h.sigmas.foldl (welford ctx) (ctx.ops.ofInt 0, ctx.ops.ofInt 0, ctx.ops.ofInt 0)
+  (st.sN, st.sMean, st.sM2) = h.sigmas.foldl (welford ctx) (ctx.ops.ofInt 0, ctx.ops.ofInt 0, ctx.ops.ofInt 0) ∧
+  ∀ i, BaseRel ctx (st.lams i) (h.lams i)
+
+theorem stateRel_iff (st : FnState F) (h : Hist F) :
+    StateRel ctx st h ↔ BaseRel ctx st.toFnBase h.toHistBase ∧ ∀ i, BaseRel ctx (st.lams i) (h.lams i) := by
+  unfold StateRel BaseRel
+  constructor
+  · rintro ⟨a, b, c, d, e⟩; exact ⟨⟨a, b, c, d⟩, e⟩
+  · rintro ⟨⟨a, b, c, d⟩, e⟩; exact ⟨a, b, c, d, e⟩
+
+theorem baseRel_init : BaseRel ctx (FnBase.init ctx.ops) {} := by
+  simp [BaseRel, FnBase.init, wrap]
 
 theorem stateRel_init : StateRel ctx (FnState.init ctx.ops) {} := by
-  simp [StateRel, FnState.init, wrap]
+  rw [stateRel_iff]
+  exact ⟨baseRel_init ctx, fun _ => baseRel_init ctx⟩
+
+/-- entering the body of lambda node `i` … -/
+theorem stateRel_enter {st : FnState F} {h : Hist F} (hr : StateRel ctx st h) (i : Nat) :
+    StateRel ctx (st.enter i) (h.enter i) := by
+  rw [stateRel_iff] at hr ⊢
+  exact ⟨hr.2 i, hr.2⟩
+
+/-- … and leaving it keep the simulation. -/
+theorem stateRel_leave {st inner : FnState F} {h hin : Hist F} (hr : StateRel ctx st h) (hi : StateRel ctx inner hin)
+    (i : Nat) : StateRel ctx (st.leave inner i) (h.leave hin i) := by
+  rw [stateRel_iff] at hr hi ⊢
+  refine ⟨hr.1, fun j => ?_⟩
+  simp only [FnState.leave, Hist.leave]
+  by_cases hj : j = i
+  · simp only [hj, if_true]; exact hi.1
+  · simp only [hj, if_false]; exact hi.2 j
+
+theorem hist_leave_enter (h : Hist F) (i : Nat) : h.leave (h.enter i) i = h := by
+  cases h with
+  | mk b l =>
+    simp only [Hist.leave, Hist.enter]
+    congr 1
+    funext j
+    by_cases hj : j = i <;> simp [hj]
 
 theorem wrap_wrap_succ (a : Int) : wrap (wrap a + 1) = wrap (a + 1) := by
   unfold wrap; omega
@@ -30,11 +74,11 @@ theorem callFn_refCall (fn : String) (args : List (Value F)) (st : FnState F) (h
     (callFn ctx fn args st).1 = (refCall ctx fn args h).1 ∧
     StateRel ctx (callFn ctx fn args st).2 (refCall ctx fn args h).2 := by
   have hr0 := hr
-  obtain ⟨hc, hmin, hmax, hsig⟩ := hr
+  obtain ⟨hc, hmin, hmax, hsig, hl⟩ := hr
   unfold callFn refCall
   by_cases h1 : fn = "count"
   · simp only [h1, if_true]
-    refine ⟨?_, ?_, hmin, hmax, hsig⟩
+    refine ⟨?_, ?_, hmin, hmax, hsig, hl⟩
     · simp [hc, wrap_wrap_succ]
     · simp [hc, wrap_wrap_succ]
   simp only [h1, if_false]
@@ -45,7 +89,7 @@ theorem callFn_refCall (fn : String) (args : List (Value F)) (st : FnState F) (h
       have hf : (h.sigmas ++ [x]).foldl (welford ctx) (ctx.ops.ofInt 0, ctx.ops.ofInt 0, ctx.ops.ofInt 0)
           = welford ctx (st.sN, st.sMean, st.sM2) x := by
         rw [List.foldl_append, ← hsig]; rfl
-      refine ⟨?_, hc, hmin, hmax, ?_⟩
+      refine ⟨?_, hc, hmin, hmax, ?_, hl⟩
       · simp [refSigma, hf, welford]
       · simp [hf, welford]
     · rename_i hne
@@ -57,7 +101,7 @@ theorem callFn_refCall (fn : String) (args : List (Value F)) (st : FnState F) (h
   · simp only [h3, if_true]
     split
     · rename_i x
-      refine ⟨?_, hc, ?_, ?_, hsig⟩
+      refine ⟨?_, hc, ?_, ?_, hsig, hl⟩
       · simp [refSpread, List.foldl_append, ← hmin, ← hmax]
       · simp [List.foldl_append, ← hmin]
       · simp [List.foldl_append, ← hmax]
@@ -143,6 +187,17 @@ theorem lookup_key {tbl : List Entry} {op : BOp} {a b : Ty} {ent : Entry} (h : l
 
 variable (σ : Scope F)
 
+/-- a lambda node is well typed when its body is, with a type other than time (`EvalLambdaNode.EvalTime` refuses). -/
+theorem typeRef_lam {i : Nat} {e : Expr F} {t : Ty} (h : typeRef ctx σ (.lam i e) = some t) :
+    typeRef ctx σ e = some t ∧ t ≠ .time := by
+  simp only [typeRef] at h
+  split at h
+  · cases h
+  · rename_i hne
+    refine ⟨h, fun ht => ?_⟩
+    subst ht
+    exact hne h
+
 theorem constType_typeRef (hT : TblOK ctx.tbl) (e : Expr F) :
     ∀ t, typeRef ctx σ e = some t → constType ctx e = .invalid ∨ constType ctx e = t := by
   induction e with
@@ -187,6 +242,10 @@ theorem constType_typeRef (hT : TblOK ctx.tbl) (e : Expr F) :
   | call3 fn a b d iha ihb ihd => intro t h; left; simp [constType]
   | call4 fn a b d e iha ihb ihd ihe => intro t h; left; simp [constType]
   | callMany fn => intro t h; left; simp [constType]
+  | lam i e ih =>
+    intro t h
+    simp only [constType]
+    exact ih t (typeRef_lam ctx σ h).1
 
 theorem isValTy_ne_invalid {t : Ty} (h : isValTy t = true) : t ≠ .invalid := by
   intro e; subst e; cases h
@@ -286,6 +345,16 @@ theorem typeP_typeRef (hT : TblOK ctx.tbl) (e : Expr F) : ∀ t, typeRef ctx σ 
           | none => simp [ha, hb, hd, he] at h
           | some te => simp only [iha ta ha, ihb tb hb, ihd td hd, ihe te he]; simpa [ha, hb, hd, he] using h
   | callMany fn => intro t h; simp [typeRef] at h
+  | lam i e ih =>
+    intro t h
+    have h2 := constType_typeRef ctx σ hT (.lam i e) t h
+    simp only [typeP]
+    split
+    · rename_i hne
+      rcases h2 with h2 | h2
+      · exact absurd h2 hne
+      · rw [h2]
+    · exact ih t (typeRef_lam ctx σ h).1
 
 /-- a well-typed non-dynamic expression has its reference type as constant type. -/
 theorem constType_nondyn (hT : TblOK ctx.tbl) (e : Expr F) :
@@ -329,6 +398,10 @@ theorem constType_nondyn (hT : TblOK ctx.tbl) (e : Expr F) :
   | call3 fn a b d iha ihb ihd => intro t h hd; simp [isDyn] at hd
   | call4 fn a b d e iha ihb ihd ihe => intro t h hd; simp [isDyn] at hd
   | callMany fn => intro t h hd; simp [isDyn] at hd
+  | lam i e ih =>
+    intro t h hd
+    simp only [constType]
+    exact ih t (typeRef_lam ctx σ h).1 (by simpa [isDyn] using hd)
 
 /-! ### the evaluator against the big-step reference -/
 
@@ -341,6 +414,7 @@ def noMissingLit : Expr F → Bool
   | .call2 _ a b => noMissingLit a && noMissingLit b
   | .call3 _ a b d => noMissingLit a && noMissingLit b && noMissingLit d
   | .call4 _ a b d e => noMissingLit a && noMissingLit b && noMissingLit d && noMissingLit e
+  | .lam _ e => noMissingLit e
   | _ => true
 
 /-- the signature of a builtin the model defines itself declares the type the builtin returns (`Lib.builtinRet`
@@ -458,33 +532,35 @@ theorem ty_ne_invalid (v : Value F) : v.ty ≠ .invalid := by cases v <;> simp [
 
 /-- a well-typed expression never has the invalid type, and has the missing type only when it is a
 reference to a missing field. -/
-theorem typeRef_shape (hF : FnOK ctx) (e : Expr F) (t : Ty) (hwf : noMissingLit e = true)
-    (h : typeRef ctx σ e = some t) :
-    t ≠ .invalid ∧ (t = .missing → ∃ n, e = .ref n ∧ σ.get n = some .missing) := by
-  have hsig : ∀ fn tys, sigType ctx fn tys = some t → t ≠ .invalid ∧ t ≠ .missing := by
-    intro fn tys hs
+theorem typeRef_shape (hF : FnOK ctx) (e : Expr F) : ∀ (t : Ty), noMissingLit e = true → typeRef ctx σ e = some t →
+    t ≠ .invalid ∧ (t = .missing → missOk e = true ∧ ∀ h : Hist F, valRef ctx σ e h = (.ok .missing, h)) := by
+  have hsig : ∀ (t : Ty) fn tys, sigType ctx fn tys = some t → t ≠ .invalid ∧ t ≠ .missing := by
+    intro t fn tys hs
     obtain ⟨s, hmem, _, _, hret⟩ := sigType_mem ctx hs
     have hok := hF.sigs s hmem
     simp only [nativeSigOK, Bool.and_eq_true, bne_iff_ne, ne_eq] at hok
     rw [hret] at hok
     exact ⟨hok.1.2, hok.1.1.2⟩
-  cases e with
+  induction e with
   | lit v =>
+    intro t hwf h
     simp only [typeRef] at h
     cases h
     refine ⟨ty_ne_invalid v, fun hm => ?_⟩
     cases v <;> simp [Value.ty, noMissingLit] at hm hwf
   | ref n =>
+    intro t hwf h
     simp only [typeRef] at h
     cases hg : σ.get n with
     | none => simp [hg] at h
     | some v =>
       simp [hg] at h
       subst h
-      refine ⟨ty_ne_invalid v, fun hm => ⟨n, rfl, ?_⟩⟩
+      refine ⟨ty_ne_invalid v, fun hm => ?_⟩
       cases v <;> simp [Value.ty] at hm
-      exact hg
-  | un op e =>
+      exact ⟨by simp [missOk], fun h' => by simp [valRef, hg]⟩
+  | un op e _ =>
+    intro t hwf h
     cases op with
     | not =>
       simp only [typeRef] at h
@@ -493,7 +569,8 @@ theorem typeRef_shape (hF : FnOK ctx) (e : Expr F) (t : Ty) (hwf : noMissingLit 
     | neg =>
       simp only [typeRef] at h
       split at h <;> cases h <;> exact ⟨by simp, by simp⟩
-  | bin op l r =>
+  | bin op l r _ _ =>
+    intro t hwf h
     simp only [typeRef] at h
     cases hl : typeRef ctx σ l with
     | none => simp [hl] at h
@@ -505,18 +582,21 @@ theorem typeRef_shape (hF : FnOK ctx) (e : Expr F) (t : Ty) (hwf : noMissingLit 
         have := binType_val h
         cases t <;> simp [isValTy] at this <;> exact ⟨by simp, by simp⟩
   | call0 fn =>
+    intro t hwf h
     simp only [typeRef] at h
-    have := hsig _ _ h
+    have := hsig _ _ _ h
     exact ⟨this.1, fun hm => absurd hm this.2⟩
-  | call1 fn a =>
+  | call1 fn a _ =>
+    intro t hwf h
     simp only [typeRef] at h
     cases ha : typeRef ctx σ a with
     | none => simp [ha] at h
     | some ta =>
       simp [ha] at h
-      have := hsig _ _ h
+      have := hsig _ _ _ h
       exact ⟨this.1, fun hm => absurd hm this.2⟩
-  | call2 fn a b =>
+  | call2 fn a b _ _ =>
+    intro t hwf h
     simp only [typeRef] at h
     cases ha : typeRef ctx σ a with
     | none => simp [ha] at h
@@ -525,9 +605,10 @@ theorem typeRef_shape (hF : FnOK ctx) (e : Expr F) (t : Ty) (hwf : noMissingLit 
       | none => simp [ha, hb] at h
       | some tb =>
         simp [ha, hb] at h
-        have := hsig _ _ h
+        have := hsig _ _ _ h
         exact ⟨this.1, fun hm => absurd hm this.2⟩
-  | call3 fn a b d =>
+  | call3 fn a b d _ _ _ =>
+    intro t hwf h
     simp only [typeRef] at h
     cases ha : typeRef ctx σ a with
     | none => simp [ha] at h
@@ -539,9 +620,10 @@ theorem typeRef_shape (hF : FnOK ctx) (e : Expr F) (t : Ty) (hwf : noMissingLit 
         | none => simp [ha, hb, hd] at h
         | some td =>
           simp [ha, hb, hd] at h
-          have := hsig _ _ h
+          have := hsig _ _ _ h
           exact ⟨this.1, fun hm => absurd hm this.2⟩
-  | call4 fn a b d e =>
+  | call4 fn a b d e _ _ _ _ =>
+    intro t hwf h
     simp only [typeRef] at h
     cases ha : typeRef ctx σ a with
     | none => simp [ha] at h
@@ -556,9 +638,17 @@ theorem typeRef_shape (hF : FnOK ctx) (e : Expr F) (t : Ty) (hwf : noMissingLit 
           | none => simp [ha, hb, hd, he] at h
           | some te =>
             simp [ha, hb, hd, he] at h
-            have := hsig _ _ h
+            have := hsig _ _ _ h
             exact ⟨this.1, fun hm => absurd hm this.2⟩
-  | callMany fn => simp [typeRef] at h
+  | callMany fn => intro t hwf h; simp [typeRef] at h
+  | lam i e ih =>
+    intro t hwf h
+    obtain ⟨hte, _⟩ := typeRef_lam ctx σ h
+    obtain ⟨h1, h2⟩ := ih t (by simpa [noMissingLit] using hwf) hte
+    refine ⟨h1, fun hm => ?_⟩
+    obtain ⟨m1, m2⟩ := h2 hm
+    refine ⟨by simpa [missOk] using m1, fun h' => ?_⟩
+    simp only [valRef, m2, hist_leave_enter]
 
 /-- the statement proved by induction: on a well-typed point the evaluator asked for the reference type
 returns the reference outcome and keeps the state simulation. -/
@@ -575,9 +665,9 @@ theorem arg_agree (hT : TblOK ctx.tbl) (hF : FnOK ctx) (a : Expr F) (ta : Ty) (s
   rw [typeP_typeRef ctx σ hT a ta ht]
   obtain ⟨hne, hmiss⟩ := typeRef_shape ctx σ hF a ta hwf ht
   by_cases hm : ta = .missing
-  · obtain ⟨n, rfl, hg⟩ := hmiss hm
+  · obtain ⟨hmo, hval⟩ := hmiss hm
     subst hm
-    simp [argEvalN, missOk, valRef, hg, hr, Value.ty]
+    simp [argEvalN, hmo, hval, hr, Value.ty]
   · obtain ⟨a1, a2⟩ := ih ta st h hr ht
     have : argEvalN (some ta) (missOk a) st (fun t => evalN ctx σ t a st) = evalN ctx σ ta a st := by
       cases ta <;> simp_all [argEvalN]
@@ -630,6 +720,15 @@ theorem agree_all (hT : TblOK ctx.tbl) (hF : FnOK ctx) (e : Expr F) : noMissingL
     rw [chk_id t _ (fun v hv => call_ty ctx hF fn [] st t v (by simpa using ht) hv)]
     exact ⟨c1, c2⟩
   | callMany fn => intro _ t st h hr ht; simp [typeRef] at ht
+  | lam i e ih =>
+    intro hwf t st h hr ht
+    have ihe := ih (by simpa [noMissingLit] using hwf)
+    have htp := typeP_typeRef ctx σ hT (.lam i e) t ht
+    obtain ⟨hte, hnt⟩ := typeRef_lam ctx σ ht
+    obtain ⟨a1, a2⟩ := ihe t (st.enter i) (h.enter i) (stateRel_enter ctx hr i) hte
+    simp only [evalN, valRef, htp]
+    rw [if_pos ⟨trivial, hnt⟩]
+    exact ⟨a1, stateRel_leave ctx hr a2 i⟩
   | un op e ih =>
     intro hwf t st h hr ht
     have ihe := ih (by simpa [noMissingLit] using hwf)
